@@ -101,7 +101,7 @@ class State:
     loop head) -- the arbitrary value of that havoc.  Merging and havocking go through these defaults, so a
     heap first touched on one branch, or first read after a havoc, is never mistaken for the other branch's or
     the function-entry heap."""
-    __slots__ = ('env', 'raw', 'fh', 'err', 'ghost', 'pc', 'dh', 'dg')
+    __slots__ = ('env', 'raw', 'fh', 'err', 'ghost', 'pc', 'dh', 'dg', 'last_callee_raw')
 
     def __init__(self):
         self.env = {}
@@ -141,14 +141,23 @@ class State:
 
     _hv = itertools.count()
 
-    def havoc(self, tag, keep=None, raw=True, fields=True, err=None, ghost=True):
-        """everything named becomes arbitrary (unless `keep`, a Bool, holds): existing entries and the defaults"""
+    def havoc(self, tag, keep=None, raw=True, fields=True, err=None, ghost=True, keep_trace=False, keep_stack=()):
+        """everything named becomes arbitrary (unless `keep`, a Bool, holds): existing entries and the defaults.
+        keep_trace: the havoc models what a CALLEE may do; the engine's trace of the calls made by the body under
+        verification ('tmp:calls:', 'tmp:arg:' ghosts, set at call sites only) is not the callee's to change"""
         uid = "%s!hv%d" % (tag, next(State._hv))
 
         def mix(old, new):
             return new if keep is None else z3.If(keep, old, new)
         if raw:
-            self.raw = mix(self.raw, z3.Const('raw_' + uid, z3.ArraySort(B64, B8)))
+            new = z3.Const('raw_' + uid, z3.ArraySort(B64, B8))
+            if keep_stack:
+                # (A-STACK) what a callee does cannot reach the caller's locals whose address it was not given
+                a = z3.BitVec('a!stk', 64)
+                mine = z3.Or(*[in_range(a, sa, BV((ssize + 15) // 16 * 16, 64)) for sa, ssize in keep_stack])
+                new = z3.Lambda([a], z3.If(mine, z3.Select(self.raw, a), z3.Select(new, a)))
+                self.last_callee_raw = (self.raw, new)
+            self.raw = mix(self.raw, new)
         if fields:
             odh = self.dh
             ndh = lambda key: z3.Array('H_%s_%s' % (uid, key), B64, z3.BitVecSort(int(key.rsplit(':', 1)[1])))
@@ -158,9 +167,14 @@ class State:
         if ghost:
             odg = self.dg
             ndg = lambda key, sort: z3.Const('g_%s_%s' % (uid, key), sort)
+            trace = (lambda key: keep_trace and key.startswith(('tmp:calls:', 'tmp:arg:')))
             for key in list(self.ghost):
-                self.ghost[key] = mix(self.ghost[key], ndg(key, self.ghost[key].sort()))
-            self.dg = ndg if keep is None else (lambda key, sort: z3.If(keep, odg(key, sort), ndg(key, sort)))
+                if not trace(key):
+                    self.ghost[key] = mix(self.ghost[key], ndg(key, self.ghost[key].sort()))
+            if keep is None:
+                self.dg = lambda key, sort: odg(key, sort) if trace(key) else ndg(key, sort)
+            else:
+                self.dg = lambda key, sort: odg(key, sort) if trace(key) else z3.If(keep, odg(key, sort), ndg(key, sort))
         if err is not None:
             self.err = mix(self.err, err)
 
@@ -305,6 +319,14 @@ class Contract:
     def post_goto(self, c, label):    # loop-body contracts: obligations on paths leaving by `goto label`
         return []
 
+    def post_return(self, c):         # loop-body contracts: obligations on paths leaving by `return` (c.result)
+        return []
+
+    keep_fields = False      # loop-body contracts: one iteration leaves every struct-field heap as it found it
+    #                          (obligations 'field heap ... unchanged'), so the summarising LoopSpec may keep them
+
+    record_calls = False     # the engine keeps a ghost trace (count, latest arguments) of the calls to this function
+
     def allocates(self, c):  # -> [(addr, nbytes)] regions that are freshly allocated on return (c.result, c.new)
         return []
 
@@ -323,7 +345,12 @@ class Frame:
 
 
 class LoopSpec:
-    def __init__(self, invariant=None, unroll=None, raw=None, summarise=False, assume_exit=False, readonly=False):
+    def __init__(self, invariant=None, unroll=None, raw=None, summarise=False, assume_exit=False, readonly=False,
+                 keep_fields=False):
+        self.keep_fields = keep_fields  # summarised loops only: the struct-field heaps are NOT made arbitrary; allowed
+        #                               only when the loop-body contract of the same loop declares keep_fields too,
+        #                               which makes "every field heap after one iteration is the one before it" an
+        #                               obligation of that contract
         self.readonly = readonly      # the cycle writes nothing (no heap, byte, error-indicator or ghost change on any
         #                               path back to its head): nothing but the assigned locals is made arbitrary at
         #                               the head, and every back edge carries the obligation that its heaps ARE the
@@ -409,6 +436,7 @@ class Exec:
         self._glob_symnames = set()
         self._alias_cache = {}
         self._outside_stores = {}
+        self._callee_raw = {}           # id of a byte heap made by a call -> (heap before it, ids of private locals, term)
         self.alias_stats = {'proved': 0, 'open': 0}
         self.stack_syms = []
         self.calls = []                # names of callee contracts used
@@ -593,6 +621,10 @@ class Exec:
                 r2 = self._read_byte(arr.arg(2), addr, sp, memo)
                 r = r1 if r1.eq(r2) else z3.If(arr.arg(0), r1, r2)
                 break
+            tag = getattr(self, "_callee_raw", {}).get(arr.get_id())
+            if tag is not None and sp[2] in tag[1]:
+                arr = tag[0]               # the byte heap after a call: this frame's private locals are as before it
+                continue
             r = z3.Select(arr, addr)
             break
         memo[key] = memo[a0.get_id()] = r
@@ -924,6 +956,17 @@ class Exec:
             c = Ctx(self, args, self.st0, cur)
             for label, g, extra in _norm(self.contract.post(c)):
                 self.ob('loop-body', line, label, cur, g, hyps_extra=extra or ())
+            if self.contract.keep_fields:
+                if cur.dh is not self.st0.dh:
+                    self.ob('loop-body', line, 'field heaps unchanged: a call that may change everything was made', cur,
+                            z3.BoolVal(False))
+                for key in sorted(set(cur.fh) | set(self.st0.fh)):
+                    x = cur.fh[key] if key in cur.fh else cur.dh(key)
+                    y = self.st0.fh[key] if key in self.st0.fh else self.st0.dh(key)
+                    if not _same(x, y):
+                        a = z3.BitVec('kf_p', 64)
+                        self.ob('loop-body', line, 'field heap %s unchanged by one iteration' % key, cur,
+                                z3.Select(x, a) == z3.Select(y, a))
             self.returns.append((cur, None, 'L%s-next-iteration' % line))
         for k, bst in enumerate(ctl['breaks']):
             c = Ctx(self, args, self.st0, bst)
@@ -933,6 +976,9 @@ class Exec:
         for (rst, rval, rline) in list(self.returns):
             if isinstance(rline, str) and rline.startswith('L'):
                 continue
+            c = Ctx(self, args, self.st0, rst, rval)
+            for label, g, extra in _norm(self.contract.post_return(c)):
+                self.ob('loop-body', rline, 'return: ' + label, rst, g, hyps_extra=extra or ())
         for label, states in self.gotos.items():
             for gst in states:
                 c = Ctx(self, args, self.st0, gst)
@@ -1457,11 +1503,19 @@ class Exec:
                     self.loop_regions.append((ordinal, regions))
                 else:
                     h.raw = newraw
-            h.havoc('loop%d' % ordinal, raw=False, fields=acc['fields'] or acc['calls'], ghost=acc['calls'],
+            keepf = False
+            if spec.summarise and spec.keep_fields:
+                partner = [k for k in self.reg.contracts.values()
+                           if (k.function or k.name) == self.fname.split('>')[-1] and k.loop_ordinal == ordinal and k.keep_fields]
+                if not partner:
+                    raise NotSupported("loop #%d of %s keeps field heaps but no loop-body contract proves it" % (ordinal, self.fname))
+                keepf = True
+            h.havoc('loop%d' % ordinal, raw=False, fields=(acc['fields'] or acc['calls']) and not keepf, ghost=acc['calls'],
                     err=self.fresh('loop%d_err' % ordinal, B64) if (acc['err'] or acc['calls']) else None)
         head = h.copy()
         if spec.summarise:
             self.summarised_loops.append((self.fname, ordinal, line))
+            self.loop_ordinal += self.count_loops(body)      # ordinals are source-order: skip the nested loops
             if spec.assume_exit:
                 c_x = Ctx(self, self.args, self.st0, h)
                 c_x.entry = st
@@ -1505,6 +1559,16 @@ class Exec:
             if spec.readonly:
                 self.same_heaps_ob(cur, head, line, 'loop%d' % ordinal)
         return merge_states(exits)
+
+    def count_loops(self, x):
+        k = 0
+        for ch in x.get('inner', []) or []:
+            if isinstance(ch, dict):
+                kk = ch.get('kind')
+                if kk in ('WhileStmt', 'ForStmt') or (kk == 'DoStmt' and self.const_value(ch['inner'][1]) != 0):
+                    k += 1
+                k += self.count_loops(ch)
+        return k
 
     def decl_name(self, did):
         for nm, i in list(self.locals_by_name.items()) + list(self.params.items()):
@@ -2009,6 +2073,28 @@ class Exec:
             return self.call_inline(name, st, args, n)
         raise NotSupported("call to %s (line %s): no contract, model or inline mark" % (name, line_of(n)))
 
+    def callee_havoc(self, st, tag, args=(), keep=None, err=None):
+        """a callee may change everything (unless `keep`) -- except this frame's private locals and the engine's
+        call trace"""
+        priv = self.private_stack(args)
+        st.last_callee_raw = None
+        st.havoc(tag, keep=keep, err=err, keep_trace=True, keep_stack=priv)
+        if priv and getattr(st, 'last_callee_raw', None) is not None:
+            before, lam = st.last_callee_raw
+            privset = {k for k, sym in enumerate(self.stack_syms) if any(sym[0].eq(p[0]) for p in priv)}
+            self._callee_raw[lam.get_id()] = (before, privset, lam)
+
+    def private_stack(self, args=()):
+        """this frame's locals whose address is not among the given call arguments (A-STACK: a callee can write a
+        caller's local only through an address it is handed; addresses stored in the heap earlier are not tracked)"""
+        given = set()
+        for a in args:
+            if a is not None and z3.is_bv(a) and a.size() == 64:
+                sp = self._stack_split(z3.simplify(a)) or self._stack_split(a)
+                if sp is not None:
+                    given.add(sp[2])
+        return [sym for k, sym in enumerate(self.stack_syms) if k not in given]
+
     def call_contract(self, con, name, st, args, n):
         fd = self.tu.functions.get(name) or self.tu.fundecls[name]
         pnames = [c['name'] for c in fd.get('inner', []) if c['kind'] == 'ParmVarDecl']
@@ -2016,6 +2102,13 @@ class Exec:
         self.calls.append(name)
         if con.trusted:
             self.trusted_used.add(name)
+        if getattr(con, 'record_calls', False):
+            # ghost call trace, kept by the engine at the call site: number of calls so far and the arguments of
+            # the latest one ('tmp:' ghosts are exempt from frame obligations)
+            st.ghost['tmp:calls:' + name] = st.gvar('tmp:calls:' + name, B64) + 1
+            for pn, av in argmap.items():
+                if av is not None:
+                    st.ghost['tmp:arg:%s:%s' % (name, pn)] = av
         old = st.copy()
         c = Ctx(self, argmap, old)
         for label, p, extra in _norm(con.pre(c)):
@@ -2031,13 +2124,26 @@ class Exec:
         pre_call = st.copy() if fr.havoc_if is not None else None
         if fr.raw or fr.all_raw or fr.all_raw_if is not None:
             newraw = self.fresh('raw_after_' + name, z3.ArraySort(B64, B8))
+            priv = self.private_stack(args)
+            before_call = st.raw
+            a = z3.BitVec('a!bound', 64)
+            mine = z3.Or(*[in_range(a, sa, BV((ssize + 15) // 16 * 16, 64)) for sa, ssize in priv]) if priv else None
             if not fr.all_raw:
-                a = z3.BitVec('a!bound', 64)
-                inside = z3.Or(*([in_range(a, lo, nn if z3.is_bv(nn) else BV(nn, 64)) for lo, nn in fr.raw] +
-                                 ([fr.all_raw_if] if fr.all_raw_if is not None else [])))
+                inside = z3.Or(*[in_range(a, lo, nn if z3.is_bv(nn) else BV(nn, 64)) for lo, nn in fr.raw]) \
+                    if fr.raw else z3.BoolVal(False)
+                if fr.all_raw_if is not None:
+                    inside = z3.Or(inside, z3.And(fr.all_raw_if, z3.Not(mine)) if mine is not None else fr.all_raw_if)
                 st.raw = z3.Lambda([a], z3.If(inside, z3.Select(newraw, a), z3.Select(st.raw, a)))
+            elif mine is not None:
+                st.raw = z3.Lambda([a], z3.If(mine, z3.Select(st.raw, a), z3.Select(newraw, a)))
             else:
                 st.raw = newraw
+            if priv and all(self._stack_split(z3.simplify(lo)) is not None or self._outside_frame(lo, 1) >= len(self.stack_syms)
+                            for lo, nn in fr.raw):
+                # (regions named by the frame are either locals handed to the callee -- not private -- or proved
+                #  outside this frame; so a private local reads through this heap as through the one before the call)
+                privset = {k for k, sym in enumerate(self.stack_syms) if any(sym[0].eq(p[0]) for p in priv)}
+                self._callee_raw[st.raw.get_id()] = (before_call, privset, st.raw)
         if fr.all_fields:
             st.havoc('after_' + name, raw=False, fields=True, ghost=False)
         for f in fr.fields:
@@ -2060,7 +2166,7 @@ class Exec:
             for gk2, srt in self.ghost_keys(st, gk):
                 st.ghost[gk2] = self.fresh('g_after_' + name, srt)
         if fr.havoc_if is not None and not self.known(old, z3.Not(fr.havoc_if)):
-            st.havoc('havoc_' + name, keep=z3.Not(fr.havoc_if), err=self.fresh('err_havoc_' + name, B64))
+            self.callee_havoc(st, 'havoc_' + name, args, keep=z3.Not(fr.havoc_if), err=self.fresh('err_havoc_' + name, B64))
         c2 = Ctx(self, argmap, old, st, res)
         for label, q, extra in _norm(con.post(c2)):
             st.assume(q)
@@ -2090,7 +2196,7 @@ class Exec:
         fd = self.tu.functions[name]
         sub = Exec(self.tu, self.reg, name, Contract())
         sub.__dict__.update({k: v for k, v in self.__dict__.items()
-                             if k in ('obs', 'global_hyps', '_fresh', '_globals_addr', '_glob_syms', '_glob_symnames', 'stack_syms', '_alias_cache', '_outside_stores', 'alias_stats', 'pre_pc',
+                             if k in ('obs', 'global_hyps', '_fresh', '_globals_addr', '_glob_syms', '_glob_symnames', 'stack_syms', '_alias_cache', '_outside_stores', '_callee_raw', 'alias_stats', 'pre_pc',
                                       'raw0', 'err0', 'base_witness', '_names',
                                       'calls', 'trusted_used', 'st0', 'args', 'prune', 'declared_regions',
                                       'fresh_regions', 'access_regions', 'cur_line', 'literals', 'literal_hyps')})
